@@ -91,7 +91,8 @@ int main (int argc, char **argv) {
 		VTM ("\"e\":\"Epoch\",\"cell\":%ld", fill);
 		for (i = 1; i <= nprod + ncons; i++) pthread_join (th[i], NULL);
 	} else {
-		int bcast = !strcmp (argv[4], "broadcast"), rounds = atoi (argv[5]), r, hold_ms = argc > 6 ? atoi (argv[6]) : 0;   /* the signaller's critical section lasts hold_ms */
+		int bcast = !strcmp (argv[4], "broadcast"), rounds = atoi (argv[5]), r, hold_ms = argc > 6 ? atoi (argv[6]) : 0,   /* the signaller's critical section lasts hold_ms */
+		    burst = argc > 7 ? atoi (argv[7]) : 0;      /* > 0: that many signal / broadcast calls inside one critical section, then every waiter must return */
 		nw = atoi (argv[3]);
 		vtm_init (nw + 1); vtm_open (base, 0);
 		for (i = 1; i <= nw; i++) pthread_create (&wth[i], NULL, waiter, (void *) (long) i);
@@ -112,7 +113,13 @@ int main (int argc, char **argv) {
 				if (n == nw) break;
 				sched_yield ();
 			  } }
-			if (bcast) {
+			if (burst > 0) {
+				int b;
+				call_ (17, "lock"); hold (hold_ms);
+				for (b = 0; b < burst; b++) call_ (17, bcast ? "broadcast" : "signal");
+				call_ (17, "unlock");
+				if (!wait_returned (nw)) stuck_exit ();
+			} else if (bcast) {
 				call_ (17, "lock"); hold (hold_ms); call_ (17, "broadcast"); call_ (17, "unlock");
 				if (!wait_returned (nw)) stuck_exit ();
 			} else {
